@@ -90,6 +90,11 @@ func attributeType(args ...Object) Object {
 			return newError("invalid type %s", strObj.Value)
 		}
 
+		if isUndefined(path) {
+			// a missing attribute has no type, not even NULL
+			return FALSE
+		}
+
 		return nativeBoolToBooleanObject(path.Type() == ObjectType(strObj.Value))
 	}
 
